@@ -120,6 +120,7 @@ type Path struct {
 	mapOrderSym bool
 	spec    bool
 	nIfConv int
+	gtext   map[int][]*Term
 }
 
 func (p *Path) unsupported(format string, args ...interface{}) pathAbort {
